@@ -159,7 +159,11 @@ func execConc(tr *Trace, cv concVariant, stats *Stats) ([]commitPoint, *Violatio
 		var v *Violation
 		switch {
 		case isCommit && cv.FailEncode > 0:
+			w.failedAttemptState = ""
 			v = w.commitWithEncodeFailure(&st, cv, r)
+			if v == nil && w.failedAttemptState != "" {
+				points = append(points, commitPoint{Step: i, Flavour: "fc-failed", State: w.failedAttemptState})
+			}
 		case isCommit && cv.Exec.Sched != "" && !freeRunning:
 			v = schedCommit(w, &st, cv.Exec, r)
 		case st.Op == "preload" && (cv.FailDecode > 0 || cv.FailRead > 0):
@@ -236,6 +240,10 @@ func (w *World) commitWithEncodeFailure(st *Step, cv concVariant, r *Rng) *Viola
 			return w.viol("conc.error", "commit (%s, %d workers) whose encoder failed once returned no error", st.Flavour, st.Workers)
 		}
 		w.Stats.Inc("conc.done-path")
+		if flavourName(st.Flavour) == "fc" {
+			// what the rejected deterministic commit left on the ledger is compared with the 1-worker execution
+			w.failedAttemptState = ledgerDigest(w.Ledger)
+		}
 		// the view is unchanged: everything still reads back as the model says
 		if v := w.DeepLive(cmpOpts{}); v != nil {
 			return w.viol("conc.view-after-failure", "after the failed parallel commit the storage no longer matches the model: [%s] %s", v.Class, v.Msg)
